@@ -56,6 +56,7 @@ structure TablesOk (T : Tables) : Prop where
   digit_ascii : ∀ c, isAscii c = true → T.digitVal c = Csv.digitVal? c
   ci_ascii : ∀ c t, isAscii c = true → isAscii t = true → T.ciMatch c t = (asciiLower c == asciiLower t)
   ci_refl : ∀ c, T.ciMatch c c = true
+  space_not_digit : ∀ c, isPySpace c = true → T.digitVal c = none
   lower_ascii : ∀ c, isAscii c = true → T.lower c = [asciiLower c]
 
 /-! ## the compiled pattern -/
@@ -176,16 +177,19 @@ def consSpace (c : Char) : List Item → List Item
 /-- `TimeRE.pattern`: escape, white-space runs ↦ `\s+`, directives ↦ their regex, left to right -/
 def scan : Str → Except StrpErr (List Item)
   | [] => .ok []
-  | ['%'] => .error .stray
-  | '%' :: k :: r =>
-    -- after escaping / white-space replacement the character following `%` would be a backslash: `KeyError('\\')`
-    if isRegexSpecial k || isPySpace k then .error .badDirective else
-    match directive k with
-    | .bad => .error .badDirective
-    | .unsupported => .error .unsupported
-    | .percent => (scan r).map (Item.lit '%' :: ·)
-    | .group alts => (scan r).map (Item.group k alts :: ·)
-  | c :: r => if isPySpace c then (scan r).map (consSpace c) else (scan r).map (Item.lit c :: ·)
+  | c :: r =>
+    if c = '%' then
+      match r with
+      | [] => .error .stray
+      | k :: r' =>
+        -- after escaping / white-space replacement the character following `%` would be a backslash: `KeyError('\\')`
+        if isRegexSpecial k || isPySpace k then .error .badDirective else
+        match directive k with
+        | .bad => .error .badDirective
+        | .unsupported => .error .unsupported
+        | .percent => (scan r').map (Item.lit '%' :: ·)
+        | .group alts => (scan r').map (Item.group k alts :: ·)
+    else if isPySpace c then (scan r).map (consSpace c) else (scan r).map (Item.lit c :: ·)
 
 def groupNames : List Item → List Char
   | [] => []
@@ -408,7 +412,7 @@ def strptime (T : Tables) (fmt text : Str) : Except StrpErr DateTime :=
 
 /-! ## `datetime.isoformat()` (how a transaction's date is written down when results are compared) -/
 
-def digitChar (d : Nat) : Char := Char.ofNat (48 + d)
+open TallyVerif.Csv (digitChar)
 def pad2 (n : Nat) : Str := [digitChar (n / 10 % 10), digitChar (n % 10)]
 def pad4 (n : Nat) : Str := [digitChar (n / 1000 % 10), digitChar (n / 100 % 10), digitChar (n / 10 % 10), digitChar (n % 10)]
 def pad6 (n : Nat) : Str := [digitChar (n / 100000 % 10), digitChar (n / 10000 % 10), digitChar (n / 1000 % 10),
@@ -417,6 +421,135 @@ def pad6 (n : Nat) : Str := [digitChar (n / 100000 % 10), digitChar (n / 10000 %
 def isoformat (t : DateTime) : Str :=
   pad4 t.year ++ '-' :: pad2 t.month ++ '-' :: pad2 t.day ++ 'T' :: pad2 t.hour ++ ':' :: pad2 t.minute ++ ':' :: pad2 t.second ++
     (if t.micro = 0 then [] else '.' :: pad6 t.micro)
+
+/-! ## writing dates: `strftime` for the directives `%Y %y %m %d %b %B %H %M %S`
+
+`renderItems` writes a date the way the compiled format says: a literal as itself, a white-space run as itself, a directive
+as `strftime` writes it (zero padded, month names capitalised).  A `Spell` per item describes the other spellings `strptime`
+accepts: a one-digit day / month / hour / minute / second, other white space, another letter case of the month name.
+(`strftime` / `strftimeWith` are compared with CPython's `datetime.strftime` by the harness.) -/
+
+def aMonthCap : List Str := ["Jan", "Feb", "Mar", "Apr", "May", "Jun", "Jul", "Aug", "Sep", "Oct", "Nov", "Dec"].map String.toList
+def fMonthCap : List Str := ["January", "February", "March", "April", "May", "June", "July", "August", "September", "October",
+  "November", "December"].map String.toList
+
+/-- how one item of the format is spelled in the text -/
+structure Spell where
+  /-- a numeric field below 10 is written with one digit -/
+  unpad : Bool := false
+  /-- the white space written for a white-space run of the format (default: the run itself) -/
+  blanks : Option Str := none
+  /-- the month name as written (default: capitalised, as `strftime` writes it) -/
+  name : Option Str := none
+deriving DecidableEq, Repr
+
+def num2 (sp : Spell) (n : Nat) : Str := if sp.unpad ∧ n < 10 then [digitChar n] else pad2 n
+
+/-- what is written for the group `%k` -/
+def renderGroup (sp : Spell) (t : DateTime) (k : Char) : Str :=
+  if k = 'Y' then pad4 t.year
+  else if k = 'y' then pad2 (t.year % 100)
+  else if k = 'm' then num2 sp t.month
+  else if k = 'd' then num2 sp t.day
+  else if k = 'H' then num2 sp t.hour
+  else if k = 'M' then num2 sp t.minute
+  else if k = 'S' then num2 sp t.second
+  else if k = 'b' then sp.name.getD (aMonthCap.getD (t.month - 1) [])
+  else if k = 'B' then sp.name.getD (fMonthCap.getD (t.month - 1) [])
+  else []
+
+def renderItem (sp : Spell) (t : DateTime) : Item → Str
+  | .lit c => [c]
+  | .spaces run => sp.blanks.getD run
+  | .group k _ => renderGroup sp t k
+
+/-- the text of a date under the compiled format; `sps` = the spelling of each item (missing entries: the default) -/
+def renderItems : List Spell → List Item → DateTime → Str
+  | _, [], _ => []
+  | sps, it :: is, t => renderItem (sps.headD {}) t it ++ renderItems sps.tail is t
+
+/-- `t.strftime(fmt)` in the spelling `sps` -/
+def strftimeWith (sps : List Spell) (fmt : Str) (t : DateTime) : Str :=
+  match compile fmt with
+  | .ok items => renderItems sps items t
+  | .error _ => []
+
+/-- `t.strftime(fmt)` -/
+def strftime (fmt : Str) (t : DateTime) : Str := strftimeWith [] fmt t
+
+def renderable (k : Char) : Bool :=
+  k == 'Y' || k == 'y' || k == 'm' || k == 'd' || k == 'b' || k == 'B' || k == 'H' || k == 'M' || k == 'S'
+
+/-- the directives of the format are among `%Y %y %m %d %b %B %H %M %S`, and year, month and day are all there -/
+def namesOk (ns : List Char) : Bool :=
+  ns.all renderable && (ns.contains 'Y' || ns.contains 'y') && (ns.contains 'm' || ns.contains 'b' || ns.contains 'B') &&
+    ns.contains 'd'
+
+/-- **`FmtOk`**: the format compiles (no stray `%`, no unknown or repeated directive), its directives are among
+`%Y %y %m %d %b %B %H %M %S`, and it names the year, the month and the day.  Nothing is asked of the separators: `%Y%m%d` is fine. -/
+def FmtOk (fmt : Str) : Bool :=
+  match compile fmt with
+  | .ok items => namesOk (groupNames items)
+  | .error _ => false
+
+/-- a two-digit year can only say 1969..2068 -/
+def yearFits (ns : List Char) (t : DateTime) : Bool :=
+  if ns.contains 'y' then 1969 ≤ t.year && t.year ≤ 2068 else true
+
+def YearFits (fmt : Str) (t : DateTime) : Bool :=
+  match compile fmt with
+  | .ok items => yearFits (groupNames items) t
+  | .error _ => false
+
+/-- what the text says about the date: the time fields the format does not mention are 0 -/
+def restrict (ns : List Char) (t : DateTime) : DateTime :=
+  { year := t.year, month := t.month, day := t.day, hour := if ns.contains 'H' then t.hour else 0,
+    minute := if ns.contains 'M' then t.minute else 0, second := if ns.contains 'S' then t.second else 0, micro := 0 }
+
+def readBack (fmt : Str) (t : DateTime) : DateTime :=
+  match compile fmt with
+  | .ok items => restrict (groupNames items) t
+  | .error _ => t
+
+/-- a numeric field that may be written with one or two digits -/
+def numericVar (k : Char) : Bool := k == 'm' || k == 'd' || k == 'H' || k == 'M' || k == 'S'
+
+/-- what follows does not begin with a digit: the end, a literal that is not a digit, white space, a month name -/
+def nextNonDigit (T : Tables) : List Item → Bool
+  | [] => true
+  | .lit c :: _ => (T.digitVal c).isNone
+  | .spaces _ :: _ => true
+  | .group k _ :: _ => k == 'b' || k == 'B'
+
+/-- `w` is a spelling of the (lower-case) name `name`: the same letters in any letter case -/
+def nameOk (w name : Str) : Bool :=
+  w.map asciiLower == name && w.all (fun c => isAscii c && !isPySpace c && (Csv.digitVal? c).isNone) && !w.isEmpty
+
+/-- the spelling `sp` of the item `it` (followed by the items `next`) is one `strptime` reads back:
+* a one-digit numeric field must not be followed by a digit (the ONLY separation condition, and only for this spelling);
+* white space is written as white space;
+* a month name is written with its own letters. -/
+def spellOk (T : Tables) (sp : Spell) (t : DateTime) (it : Item) (next : List Item) : Bool :=
+  match it with
+  | .lit _ => true
+  | .spaces _ => match sp.blanks with
+    | none => true
+    | some ws => !ws.isEmpty && ws.all isPySpace
+  | .group k _ =>
+    (if sp.unpad && numericVar k then nextNonDigit T next else true) &&
+    (match sp.name with
+     | none => true
+     | some w => if k = 'b' then nameOk w (aMonth.getD (t.month - 1) [])
+                 else if k = 'B' then nameOk w (fMonth.getD (t.month - 1) []) else true)
+
+def spellsOk (T : Tables) : List Spell → List Item → DateTime → Bool
+  | _, [], _ => true
+  | sps, it :: is, t => spellOk T (sps.headD {}) t it is && spellsOk T sps.tail is t
+
+def SpellsOk (T : Tables) (sps : List Spell) (fmt : Str) (t : DateTime) : Bool :=
+  match compile fmt with
+  | .ok items => spellsOk T sps items t
+  | .error _ => false
 
 /-! ## the date oracle of `Csv.parseRow`, instantiated: no date oracle is left -/
 
